@@ -228,7 +228,13 @@ func (rn *runner) judge(cfg string, a Act, cr Concrete, resp Resp, seen []Seen, 
 			key = fmt.Sprintf("isolation-headers{tr=%s,out=%s}", r.Tr, a.Out) // only status / headers differ
 		}
 		cfgNote := ""
-		if cfg != "" {
+		switch cfg {
+		case "":
+		case "map":
+			cfgNote = " (server constructed with graphql.MapCache as query cache)"
+		case "nocache":
+			cfgNote = " (server constructed without a query cache)"
+		default:
 			cfgNote = fmt.Sprintf(" (server constructed with ResponseHeaders %s)", canon(cfgHeaders(cfg)))
 		}
 		if len(prev) == 0 && !rn.conc {
@@ -264,6 +270,17 @@ func (rn *runner) fail(format string, a ...any) {
 	rn.check.AddTraces(rn.st.Histories)
 	rn.check.AddEvals(rn.st.Requests)
 	rn.check.Finish()
+}
+
+// twinFamily mirrors Family in spec/HttpState.tla.
+func twinFamily(t string) string {
+	if len(t) == 3 && t[0] == 'T' {
+		if t == "TF1" {
+			return "FA"
+		}
+		return "F" + t[1:2]
+	}
+	return t
 }
 
 func (r AReq) isWS() bool { return r.Tr == "WS" }
@@ -376,10 +393,12 @@ func main() {
 		runTLC("seq", seqCfg, 1, true)
 		runTLC("hdr", "MC_HttpStateHdr.cfg", 1, false)
 		runTLC("held", "MC_HttpStateHeld.cfg", 1, false)
+		runTLC("twin", "MC_HttpStateTwin.cfg", 1, false)
+		runTLC("ws", "MC_HttpStateWs.cfg", 1, false)
 	}()
 	negNames := []string{}
 	if thorough {
-		negNames = []string{"q", "opn", "vars", "ext", "hdr", "rt", "early", "key", "merge", "bufpool", "bufpool_seq"}
+		negNames = []string{"q", "opn", "vars", "ext", "hdr", "rt", "early", "key", "merge", "bufpool", "bufpool_seq", "fold", "fold_nocache", "wsshared"}
 	}
 	go func() { // lane B goes on while the histories are replayed
 		defer close(laneB)
@@ -412,6 +431,7 @@ func main() {
 	}
 	<-laneA
 	seq, hdr, held := modelOK("seq"), modelOK("hdr"), modelOK("held")
+	twin, wsm := modelOK("twin"), modelOK("ws")
 	modelMutants := map[string]string{}
 	// finishModels waits for lane B: two requests in flight, the negative configurations
 	finishModels := func() {
@@ -427,7 +447,7 @@ func main() {
 			viol := "none"
 			if !r.OK {
 				viol = "unknown"
-				for _, inv := range []string{"OwnParams", "Isolation", "CacheTransparent"} {
+				for _, inv := range []string{"OwnParams", "Isolation", "CacheTransparent", "WsFrameOwn"} {
 					if strings.Contains(r.Violation, "Invariant "+inv+" is violated") {
 						viol = inv
 					}
@@ -435,7 +455,7 @@ func main() {
 			}
 			modelMutants[f] = viol
 			// Headers and ReadTime are assigned before every use; a pooled response buffer is invisible sequentially
-			wantViol := f != "hdr" && f != "rt" && f != "bufpool_seq"
+			wantViol := f != "hdr" && f != "rt" && f != "bufpool_seq" && f != "fold_nocache"
 			if (viol != "none") != wantViol || viol == "unknown" {
 				vlib.Infra("negative configuration neg_%s: expected violation=%v, TLC says %q\n%s", f, wantViol, viol, r.Violation)
 			}
@@ -461,6 +481,16 @@ func main() {
 		vlib.Infra("schedule edges: %v", err)
 	}
 	scheds := schedules(schedEdges)
+	twinEdges, err := vlib.ParseEdges(twin.Printed)
+	if err != nil {
+		vlib.Infra("edges of the twin instance: %v", err)
+	}
+	wsEdges, err := vlib.ParseEdges(wsm.Printed)
+	if err != nil {
+		vlib.Infra("websocket schedule edges: %v", err)
+	}
+	wsScheds := wsSchedules(wsEdges)
+	twin.Printed, twin.Output, wsm.Printed, wsm.Output = nil, "", nil, ""
 	seq.Printed, seq.Output, hdr.Printed, hdr.Output, held.Printed, held.Output = nil, "", nil, "", nil, ""
 	initOf := func(cfg string) string {
 		return `{"apq":[],"cfg":"` + cfg + `","neg":{"ct":"","tr":""},"pool":[],"qc":[]}`
@@ -503,6 +533,29 @@ func main() {
 		}
 	}
 	nHdrHist := len(histories) - nSeqHist
+	// the twin instance: one family of covering paths per query cache (LRU, MapCache, none)
+	twinCovered := map[string]bool{}
+	twinAfterTwin := 0
+	for _, cfg := range []string{"none", "map", "nocache"} {
+		ps := vlib.CoverPaths(twinEdges, initOf(cfg), 4)
+		if len(ps) == 0 {
+			vlib.Infra("twin instance: no path from the initial state %s", initOf(cfg))
+		}
+		for _, p := range ps {
+			h := hist{Cfg: cfg, Steps: toSteps(p)}
+			histories = append(histories, h)
+			for i, e := range p {
+				twinCovered[e.S+"|"+string(e.A)] = true
+				if i > 0 && cfg != "nocache" && h.Steps[i].Act.R.Q != h.Steps[i-1].Act.R.Q && twinFamily(h.Steps[i].Act.R.Q) == twinFamily(h.Steps[i-1].Act.R.Q) {
+					twinAfterTwin++
+				}
+			}
+		}
+	}
+	nTwinHist := len(histories) - nSeqHist - nHdrHist
+	if twinAfterTwin == 0 {
+		vlib.Infra("vacuous: no history serves a document right after its twin on a server with a query cache")
+	}
 
 	// ---- fresh-server oracle for every request of every history: one fresh PROCESS per request, four at a time
 	rn := newRunner()
@@ -565,6 +618,9 @@ func main() {
 	for _, cfg := range []string{"xsb", "none", "ct"} {
 		walk(hdrEdges, initOf(cfg), cfg, walkLen/3, "random walk of the header instance on configuration "+cfg)
 	}
+	for _, cfg := range []string{"none", "map", "nocache"} {
+		walk(twinEdges, initOf(cfg), cfg, walkLen/5, "random walk of the twin instance, query cache "+cfg)
+	}
 	seqWall := time.Since(t0).Seconds()
 	fmt.Fprintf(os.Stderr, "sequential replay done after %.1fs (%d requests, %d oracle runs)\n", time.Since(tStart).Seconds(), rn.st.Requests, rn.or.n)
 	runtime.UnlockOSThread()
@@ -582,6 +638,13 @@ func main() {
 			seqStats.PredMismatch, seqStats.PredChecked, seqStats.PredSample)
 	}
 
+	// ---- several operations in flight on one websocket connection
+	wst := runWsInflight(c, rn, wsScheds)
+	if wst.Overlaps == 0 {
+		vlib.Infra("vacuous: no websocket schedule has two operations in flight")
+	}
+	fmt.Fprintf(os.Stderr, "websocket in-flight phase done after %.1fs (%d connections)\n", time.Since(tStart).Seconds(), wst.Connections)
+
 	// ---- concurrent variant in a -race build of this driver || concurrent requests against generated code
 	concHist := append([]hist{}, histories[:nSeqHist]...)
 	maxConc := 1200
@@ -592,7 +655,11 @@ func main() {
 		rng.Shuffle(len(concHist), func(i, j int) { concHist[i], concHist[j] = concHist[j], concHist[i] })
 		concHist = concHist[:maxConc]
 	}
-	concHist = append(concHist, histories[nSeqHist:]...) // the header instance completely
+	for _, h := range histories[nSeqHist:] { // the header and twin instances completely
+		if h.Cfg != "map" { // graphql.MapCache is a plain map ("should only be used in tests"): one client at a time
+			concHist = append(concHist, h)
+		}
+	}
 	pb := <-probesCh
 	if pb.err != nil {
 		vlib.Infra("build probes: %v", pb.err)
@@ -611,8 +678,8 @@ func main() {
 
 	finishModels()
 	fmt.Fprintf(os.Stderr, "TLC lane B done after %.1fs\n", time.Since(tStart).Seconds())
-	c.AddTraces(seqStats.Histories + concStats.Histories + gs.Runs)
-	c.AddEvals(seqStats.Requests + concStats.Requests + gs.Requests)
+	c.AddTraces(seqStats.Histories + concStats.Histories + gs.Runs + wst.Connections)
+	c.AddEvals(seqStats.Requests + concStats.Requests + gs.Requests + wst.Steps)
 	for _, tr := range sortedKeys(seqStats.PerTr) {
 		c.Class("transport=" + tr)
 	}
@@ -622,12 +689,20 @@ func main() {
 	for k := range hdrCovered {
 		c.Class("hdr|" + k)
 	}
+	for k := range twinCovered {
+		c.Class("twin|" + k)
+	}
+	for _, sc := range wsScheds {
+		c.Class("ws|" + wsSchedName(sc))
+	}
 	for _, k := range gs.Classes {
 		c.Class(k)
 	}
 	c.Set("rule", "TLC explores HttpState (pool x query cache x APQ cache x transport configuration, every request of the alphabet from every reachable state, fresh and pooled object) and prints the request-level labelled state graph; "+
 		"histories = paths from Init that together cover every edge (CoverPaths, length <= 4 beyond the shortest prefix) + seeded random walks; a distinct class = one (source state, request, pool choice) edge. "+
 		"Header instance: source state = server configuration x (transport, media type) negotiated last, requests with an Accept dimension; one family of covering paths per configuration. "+
+		"Twin instance: documents that differ only in significant white space / commas / comment terminators, on servers with the LRU cache, MapCache and no cache; the exported state holds the cached texts, so the cover serves each text from every state in which a twin is cached. "+
+		"Websocket: TLC prints the schedule graph of one connection (subscribe A, subscribe B, ping, released events and stream ends); every maximal path is driven on a real connection in two variants. "+
 		"Generated code: TLC (three requests in flight, Respond split into Execute and Write) prints the schedule graph; every maximal path = one order of the Execute / Write steps, driven through gates on real concurrent requests; a class = one schedule x generator variant")
 	c.Set("exhaustive", true)
 	c.Set("edges", len(edges))
@@ -635,6 +710,16 @@ func main() {
 	c.Set("header_instance_edges", len(hdrEdges))
 	c.Set("header_instance_edges_covered", len(hdrCovered))
 	c.Set("header_instance_histories", nHdrHist)
+	c.Set("twin_instance_edges", len(twinEdges))
+	c.Set("twin_instance_edges_covered", len(twinCovered))
+	c.Set("twin_instance_histories", nTwinHist)
+	c.Set("twin_served_right_after_its_twin", twinAfterTwin)
+	c.Set("tlc_twin_instance_states", twin.Distinct)
+	c.Set("websocket_in_flight", wst)
+	c.Set("tlc_websocket_part_states", wsm.Distinct)
+	if len(twinCovered) != len(twinEdges) {
+		vlib.Infra("twin instance: %d of %d edges covered", len(twinCovered), len(twinEdges))
+	}
 	c.Set("histories", len(histories))
 	c.Set("sequential", seqStats)
 	c.Set("sequential_wall_s", seqWall)
@@ -928,8 +1013,13 @@ func replayFile(c *vlib.Check, path string) {
 	}
 	var g struct {
 		Scenario struct {
+			Where   string `json:"where"`
 			Variant string `json:"variant"`
 		} `json:"scenario"`
+	}
+	if json.Unmarshal(b, &g) == nil && g.Scenario.Where == "ws-inflight" {
+		replayWs(c, b)
+		return
 	}
 	if json.Unmarshal(b, &g) == nil && g.Scenario.Variant != "" {
 		replayGenerated(c, b)
